@@ -3,7 +3,7 @@
 # store the seeded change under the next free id M-Cxx-n, confirm it (tools/try_seeded.sh), run the
 # check of its property on the mutated /repo, remove the worktree, and print one summary line.
 SUF=$1
-for i in $(seq -w 1 20); do
+for i in ${2:-$(seq -w 1 20)}; do
   p=C$i; wt=/tmp/mut_${p}${SUF}
   [ -f $wt/seeded/patch.diff ] || { [ -d $wt ] && echo "$p: no deliverables yet"; continue; }
   n=1; while [ -d /verif/seeded/M-$p-$n ]; do n=$((n+1)); done
